@@ -337,36 +337,22 @@ theorem mgrPodDelete_noop (s : St) (q : Nat) (p : PodObj) (h : hasE s q p.id = f
 theorem Pairwise_filter_ids {l : List PodObj} (h : NodupIds l) (g : PodObj → Bool) : NodupIds (l.filter g) :=
   List.Pairwise.sublist List.filter_sublist h
 
-theorem step_pdel_ok (p : PodObj) : LiveStepOK (.pdel p) := by
-  intro s w h ho
-  simp only [okStep, Bool.and_eq_true, beq_iff_eq, atHome] at ho
-  obtain ⟨hf, hh⟩ := ho
-  obtain ⟨hp, _⟩ := find_some hf
-  have hk := resolve_known s p h.k1
-  have hE : ∀ q, hasE s q p.id = (q == resolve s p) := by
-    intro q
+/-- the pod is removed from the group `q` that caches it (its own group, or the default group while parked) -/
+theorem LiveInv_pdel_at {s : St} {w : World} (h : LiveInv s w) {p : PodObj} (hp : p ∈ w.alive) (q : Nat)
+    (hk : s.known.contains q = true) (hh : hasE s q p.id = true) :
+    LiveInv (mgrPodDelete s q p) { alive := w.drop p.id, resvd := w.resvd.filter (· != p.id) } := by
+  have hE : ∀ q', hasE s q' p.id = (q' == q) := by
+    intro q'
     rw [Bool.eq_iff_iff, beq_iff_eq]
     exact ⟨fun hq => one_loc h.vnd hq hh, fun hq => hq ▸ hh⟩
-  have hr : 0 ≤ getC s.req (resolve s p) - p.req := by
-    rw [h.req]; have := sumBy_ge_point hp (fun x => hasE s (resolve s p) x.id) hh h.nn; omega
-  have hu : isAssigned s (resolve s p) p.id = true → 0 ≤ getC s.used (resolve s p) - p.req := by
+  have hr : 0 ≤ getC s.req q - p.req := by
+    rw [h.req]; have := sumBy_ge_point hp (fun x => hasE s q x.id) hh h.nn; omega
+  have hu : isAssigned s q p.id = true → 0 ≤ getC s.used q - p.req := by
     intro ha
-    rw [h.used]; have := sumBy_ge_point hp (fun x => isAssigned s (resolve s p) x.id) ha h.nn; omega
-  obtain ⟨ev, eh, ea, er, eu, ek, es⟩ := mgrPodDelete_eff s (resolve s p) p hk hh hr hu
-  have e0 : onPodDelete s p = mgrPodDelete s (resolve s p) p := by
-    unfold onPodDelete
-    simp only []
-    split
-    · rename_i hne
-      have : hasE (mgrPodDelete s (resolve s p) p) dflt p.id = false := by
-        rw [eh, hE, beq_false_of_ne (fun hc => hne hc.symm)]; rfl
-      exact mgrPodDelete_noop _ _ _ this
-    · rfl
-  show LiveInv (onPodDelete s p) { alive := w.drop p.id, resvd := w.resvd.filter (· != p.id) }
-  rw [e0]
-  have hrs : ∀ x, resolve (mgrPodDelete s (resolve s p) p) x = resolve s x := fun x => resolve_congr ek es x
-  clear hr hu hk e0
-  generalize hq : resolve s p = q at *
+    rw [h.used]; have := sumBy_ge_point hp (fun x => isAssigned s q x.id) ha h.nn; omega
+  obtain ⟨ev, eh, ea, er, eu, ek, es⟩ := mgrPodDelete_eff s q p hk hh hr hu
+  have hrs : ∀ x, resolve (mgrPodDelete s q p) x = resolve s x := fun x => resolve_congr ek es x
+  clear hr hu hk
   generalize mgrPodDelete s q p = s' at *
   have hmem : ∀ o, o ∈ w.drop p.id ↔ (o ∈ w.alive ∧ o.id ≠ p.id) := by
     intro o; simp [World.drop, List.mem_filter]
@@ -570,5 +556,45 @@ theorem step_unresv_ok (p : PodObj) : LiveStepOK (.unresv p) := by
           rw [ea, hA]; by_cases hq : q' = resolve s p <;> simp [hq])
       (hA q')]
     by_cases hq : q' = resolve s p <;> simp [hq] <;> omega
+
+theorem step_pdel_ok (p : PodObj) : LiveStepOK (.pdel p) := by
+  intro s w h ho
+  simp only [okStep, beq_iff_eq] at ho
+  obtain ⟨hp, _⟩ := find_some ho
+  show LiveInv (onPodDelete s p) { alive := w.drop p.id, resvd := w.resvd.filter (· != p.id) }
+  cases hh : hasE s (resolve s p) p.id
+  · -- parked in the default group: OnPodDelete finds nothing in its own group and clears the default one
+    obtain ⟨q0, hq0⟩ := h.cov p hp
+    obtain ⟨o', ho', hid, hl⟩ := h.loc hq0
+    have : o' = p := h.nd.eq_of_id ho' hp hid
+    subst this
+    have hq0d : q0 = dflt := by
+      rcases hl with rfl | rfl
+      · rw [hh] at hq0; cases hq0
+      · rfl
+    subst hq0d
+    have hne : resolve s o' ≠ dflt := fun hc => by rw [hc, hq0] at hh; cases hh
+    have e0 : onPodDelete s o' = mgrPodDelete s dflt o' := by
+      unfold onPodDelete
+      simp only [hne, ne_eq, not_false_eq_true, if_true]
+      rw [mgrPodDelete_noop _ _ _ hh]
+    rw [e0]
+    exact LiveInv_pdel_at h hp dflt h.k1 hq0
+  · have e0 : onPodDelete s p = mgrPodDelete s (resolve s p) p := by
+      unfold onPodDelete
+      simp only []
+      split
+      · rename_i hne
+        apply mgrPodDelete_noop
+        cases hx : hasE s dflt p.id
+        · unfold mgrPodDelete
+          split
+          · exact hx
+          · simp only []
+            split <;> simp [hasE_delE, hx]
+        · exact absurd (one_loc h.vnd hx hh).symm hne
+      · rfl
+    rw [e0]
+    exact LiveInv_pdel_at h hp _ (resolve_known s p h.k1) hh
 
 end KoordVerif.C19.Quota
